@@ -492,6 +492,16 @@ def run(rep, tier, seed):
         if r.distinct == 0:
             raise tlc.MachineryError("no states in " + cfg)
 
+    import time
+
+    t_tlc = time.time()
+    rep.extra["phase_wall_s"] = {"tlc_all_runs_concurrent": round(t_tlc - rep.t0, 1)}
+
+    def timed(label, fn, *a):
+        t = time.time()
+        fn(*a)
+        rep.extra["phase_wall_s"][label] = round(time.time() - t, 1)
+
     if "remesh" in parts:
         if not _ST["on"]:
             for cfg, acts in T["remesh_mc"]:
@@ -499,13 +509,13 @@ def run(rep, tier, seed):
                 if never and not res[cfg].violation:
                     raise tlc.MachineryError("vacuous: actions never taken in %s: %s" % (cfg, never))
         for cfg, zu, label in T["remesh_emit"]:
-            _replay_remesh(rep, res[cfg], zu, label, cfg)
+            timed("replay:" + label, _replay_remesh, rep, res[cfg], zu, label, cfg)
     if "resample" in parts:
-        _check_resample(rep, res[T["resample"]])
+        timed("resample", _check_resample, rep, res[T["resample"]])
     if "filter" in parts:
-        _check_filter(rep, res[T["filter"]], random.Random(seed))
+        timed("filter", _check_filter, rep, res[T["filter"]], random.Random(seed))
     if "common" in parts:
-        _check_common(rep, res[T["common"][0]], T["common"][1])
+        timed("common", _check_common, rep, res[T["common"][0]], T["common"][1])
     rep.assume(
         "one assembly, all blocks with the same cross-section (hexagonal cell fully filled: pins, duct, coolant, inter-coolant)",
         "windows of getBlocksBetweenElevations / elevations of getBlockAtElevation inside the assembly (0 <= lo < hi <= top)",
